@@ -102,6 +102,11 @@ def notBool : PyVal → Bool
   | .bool _ => false
   | _ => true
 
+/-- an `int` or a `float` (not a `bool`, not a `Decimal`, which serializes to a string) -/
+def jsNumVal : PyVal → Bool
+  | .int _ | .float _ => true
+  | _ => false
+
 /-- the value lies in the gap between the declared sign and the bound the schema substitutes for it
     (`PositiveFloat` ↦ `minimum: 0.000001`) -/
 def signGap (o : NumOpts) (v : PyVal) : Bool :=
@@ -117,7 +122,7 @@ def attrPresent (attrs : List (String × PyVal)) (r : String) : Bool :=
 
 mutual
 def regF (O : Oracles) : FieldDecl → PyVal → Bool
-  | .number o, v => notBool v && !signGap o v
+  | .number o, v => jsNumVal v && !signGap o v
   | .integer _, v => notBool v
   | .float o, v => !signGap o v
   | .string _ _ _, _ => true
